@@ -458,6 +458,9 @@ def atom_of(n: ast.AST):
         op, r, l = n.ops[0], n.comparators[0], n.left
         if isinstance(op, (ast.Is, ast.IsNot)):
             pol = isinstance(op, ast.Is)
+            for a_, b_ in ((l, r), (r, l)):
+                if isinstance(b_, ast.Constant) and b_.value is None and isinstance(a_, (ast.Tuple, ast.List, ast.Dict, ast.Set, ast.ListComp, ast.DictComp)):
+                    return ('const', not pol), True          # a display is never None
             if isinstance(r, ast.Constant) and isinstance(l, ast.Constant) and (r.value is None or l.value is None):
                 # a constant compared with None by identity is decided here (a local known to hold None)
                 return ('const', ((l.value is None) == (r.value is None)) == pol), True
@@ -489,6 +492,8 @@ def atom_of(n: ast.AST):
         return ('bit', 'hasattr(%s,%s)' % (term(n.args[0]), term(n.args[1]))), True
     if isinstance(n, ast.Call) and isinstance(n.func, ast.Name) and n.func.id == 'bool' and len(n.args) == 1:
         return atom_of(n.args[0])
+    if isinstance(n, (ast.Tuple, ast.List)) and n.elts and not any(isinstance(e, ast.Starred) for e in n.elts):
+        return ('const', True), True              # a non-empty display is truthy
     return ('truthy', term(n)), True
 
 
